@@ -1,6 +1,8 @@
-from . import cycle, sidecar
+from . import cycle, sidecar, proxy
 CHECKS = {}
 for p in cycle.PROPS:
     CHECKS[p] = cycle.check
 CHECKS['C10'] = sidecar.check
 CHECKS['C14'] = sidecar.check
+CHECKS['C12'] = proxy.check
+CHECKS['C13'] = proxy.check
